@@ -169,10 +169,10 @@ static void OqCase(const J & cs)
 static int OqReplay(int argc, char ** argv)
 {
    if (argc < 4) return 2;
-   std::vector<J> cases; if (!ReadCases(argv[2], cases)) {fprintf(stderr, "cannot read %s\n", argv[2]); return 3;}
+   CaseStream in(argv[2]); if (!in.Ok()) {fprintf(stderr, "cannot read %s\n", argv[2]); return 3;}
    if (!OpenReport(argv[3])) return 3;
    const double t0 = Now();
-   for (size_t i=0; (i<cases.size())&&(g_violCases < 25); i++) {g_cases++; SetCur(mj::ToString(cases[i]).substr(0, 6000)); OqCase(cases[i]);}
+   J cs; while ((g_violCases < 25)&&(in.Next(cs))) {g_cases++; SetCur(mj::ToString(cs)); OqCase(cs);}
    J s = J::Obj(); s.set("summary", J::Bool(true)).set("cases", J::Int(g_cases)).set("followed", J::Int(g_oqFollowed)).set("drifted", J::Int(g_oqDrift)).set("violating_cases", J::Int(g_violCases))
       .set("messages_queued", J::Int(g_oqQueued)).set("messages_arrived", J::Int(g_oqArrived)).set("pumps", J::Int(g_oqPumps)).set("slowest_pump_us", J::Int((int64_t) (g_oqSlowest*1e6))).set("wall_ms", J::Int((int64_t) ((Now()-t0)*1000)));
    RepJ(s); return 0;
@@ -242,7 +242,7 @@ static MessageRef BuildHostile(const J & c, const std::string & wroot)
 
 // injects the Messages of `order` (indices into cases), `perWorld` per server instance; senders: V (valve closed, backlog) and / or B (reading)
 static long g_hInjected = 0, g_hWorlds = 0, g_hPings = 0, g_hDropped = 0, g_hBacklogMax = 0;
-static void HostilePass(const std::vector<J> & cases, const std::vector<size_t> & order, size_t perWorld, int clients, std::mt19937 & rng, const char * passName)
+static void HostilePass(const std::vector<std::string> & cases, const std::vector<size_t> & order, size_t perWorld, int clients, std::mt19937 & rng, const char * passName)
 {
    size_t pos = 0;
    while ((pos < order.size())&&(g_violCases < 25)) {
@@ -252,11 +252,12 @@ static void HostilePass(const std::vector<J> & cases, const std::vector<size_t> 
       if (blocked) {MessageRef s = Msg(PR_COMMAND_SETPARAMETERS); s()->AddBool((std::string("SUBSCRIBE:") + ow.W->root + "/*").c_str(), true); w.Send(ow.V, s); w.Settle(2);}
       J hist = J::Arr(); size_t n = 0;
       for (; (n < perWorld)&&(pos < order.size())&&(ow.viol.empty()); n++, pos++) {
-         const J & c = cases[order[pos]];
+         const J c = ParseLine(cases[order[pos]]);
          Client * sender = (clients == 1) ? ow.V : ((rng() & 1) ? ow.V : ow.B);
+         if (c.has("from")) sender = (c["from"].str() == "B") ? ow.B : ow.V;     // (re-run of a reported history)
          if ((!sender->connected)||(!w.Attached(sender))||(sender->peerClosed)) {sender = (sender == ow.V) ? ow.B : ow.V; if ((!sender->connected)||(!w.Attached(sender))) {g_hDropped++; break;}}
          J h = J::Obj(); h.set("from", J::Str(sender->name)).set("case", c); hist.push(h);
-         {J cur = J::Obj(); cur.set("pass", J::Str(passName)).set("valve_closed", J::Bool(blocked)).set("history", hist); SetCur(mj::ToString(cur).substr(std::max((size_t) 0, (size_t) 0), 7000));}
+         {J cur = J::Obj(); cur.set("pass", J::Str(passName)).set("valve_closed", J::Bool(blocked)).set("history", hist); SetCur(mj::ToString(cur));}
          char when[160]; snprintf(when, sizeof(when), "processing hostile Message #%lld (what %lld) from %s", (long long) c["id"].i(), (long long) c["what"].i(), sender->name.c_str()); SetStage(when);
          w.Send(sender, BuildHostile(c, ow.W->root)); g_hInjected++;
          w.Settle(2);
@@ -278,7 +279,7 @@ static int HostileRun(int argc, char ** argv)
 {
    // srv hostile <cases.ndjson> <report> <seed> <perWorld> <nseq> <seqlen> [shard nshards]
    if (argc < 8) return 2;
-   std::vector<J> cases; if (!ReadCases(argv[2], cases)) {fprintf(stderr, "cannot read %s\n", argv[2]); return 3;}
+   std::vector<std::string> cases; if (!ReadLines(argv[2], cases)) {fprintf(stderr, "cannot read %s\n", argv[2]); return 3;}
    if (!OpenReport(argv[3])) return 3;
    const unsigned seed = (unsigned) atoi(argv[4]); const size_t perWorld = (size_t) atoi(argv[5]); const int nseq = atoi(argv[6]); const size_t seqlen = (size_t) atoi(argv[7]);
    const size_t shard = (argc > 9) ? (size_t) atoi(argv[8]) : 0, nshards = (argc > 9) ? (size_t) atoi(argv[9]) : 1;
